@@ -48,7 +48,10 @@ CLAIMED = {
             "error); parse_yield (the token sequence is the yield of the tree) and same_yield_equal_trees; lexOne_word_kind / "
             "reserved_words (a TERM lexeme is an operator only if it is exactly AND/OR/NOT/TO). tables_fresh: the cached "
             "parsetab.py equals the tables generated from the grammar source. Completeness (every canonical token sequence is "
-            "accepted) is not proved at this commit: exercised by the three-way differential.",
+            "accepted) IS proved: parse_complete / parse_complete_str (every Parseable tree = canonical + lexable texts + "
+            "convertible numerals is returned, up to ==, for every token sequence spelling it: a second kernel-checked "
+            "certificate compl_ok of the tables, regenerated on every run, sound for arbitrary tables by run_complete), "
+            "parse_parseable (every parse result is Parseable), parse_image (the class is exactly the image of the parser).",
             NOTE_COMMON + "Semantic actions and lexer recognisers are hand-modelled; tables, precedence, regex trees and the "
             "certificate are translated from the live objects (the certificate generator is untrusted: only its kernel check counts).", "5 C03"),
     "C04": ('Lean 4 proof (totality: parse never yields a model-internal error; fuel sufficiency; history independence on a stateful lexer model) + correspondence over call histories with forked history-free references',
@@ -83,12 +86,20 @@ CLAIMED = {
             "targets; Lucene mode changes only operation kinds (all AND without explicit operator); idempotence; boolean "
             "meaning preserved (evalB) under leavesResolved; layout changes only by add_head on later operands.",
             NOTE_COMMON + "The last_operation dict sharing is modelled as a threaded store.", "5 C10"),
-    "C11": ("correspondence of the transformers and the parser/printer models + truth-table oracle on the implementation; "
-            "Lean: component theorems (C01, C08, C10, C12, C13)",
-            "For every parsed query and shipped transformer the result is printed and re-parsed on the implementation and "
-            "both trees are compared by truth table over their leaves and by their multiset of leaves and boosts; KF6-KF9 "
-            "are recognised by re-running the round trip with the finding's repair.",
-            NOTE_COMMON + "The end-to-end Lean theorem needs the lexer adjacency lemmas (not proved): partial.", "5 C11"),
+    "C11": ("Lean 4 proof: re-lexing theory (LX: a text assembled from token texts and blank separators lexes back into those "
+            "tokens iff the glue conditions hold), parser completeness (C03c), print-and-reparse theorem (Reparse), then one "
+            "theorem per shipped transformer" + T_CORR,
+            "Theorems (for every parsed query t without blank before ':' (KF1), or any printable tree): c11_copy_partial, "
+            "c11_aht_partial, c11_openrange_partial (add_head blank and non-empty): the printed result is accepted and "
+            "parses to an eqv tree; c11_openrange_merge_partial (KF12: hypothesis that the merged result keeps its glue "
+            "condition), c11_resolve_partial / c11_resolve_or_partial / c11_resolve_lucene_partial (KF6: noLooserOperand of "
+            "the result; KF7: the operator word must not glue to the operand before it, wordAfterOK on the query): the "
+            "printed result parses to a tree eqv to norm(result) (same-class nesting flattened, one-operand operations "
+            "unwrapped), and c11_meaning: equal boolean meaning (evalB on contents) for both readings of the implicit "
+            "operation. resolve_to=BoolOperation prints as juxtaposition and can only be compared by meaning "
+            "(C10.resolve_meaning). Every hypothesis is decidable and refuted on its witness (KF6 'a OR b c', KF7 'a(b)', "
+            "KF12 '>1 AND a~2AND <5 3', empty add_head, KF1/KF8 'T12 :30') by decide +kernel.",
+            NOTE_COMMON + "Transformers are hand-modelled (Model/Transform.lean); KF12 has only the result-level hypothesis.", "5 C11"),
     "C12": ("Lean 4 proof (conversion spec, no comparison left, mergeOps preserves the conjunction over any order)" + T_CORR,
             "Theorems: openRange without merging is the plain conversion; no From/To remains; mergeOps_conj: for every value "
             "the conjunction of the merged operands holds iff that of the original ones (any LE/LT structure); operands "
@@ -124,9 +135,20 @@ CLAIMED = {
             "text; tags are balanced; the rendered string is the implementation's output; each character carries the class "
             "of the innermost marked ancestor; the parsimonious mode gives the same class per character.",
             NOTE_COMMON + "'original query' inherits C01's hypothesis (KF1).", "5 C17"),
-    "C18": ('Lean 4 proof (structure theorem: only blanks/newlines are inserted between chunks; exact success condition) + correspondence + re-parse oracle',
-            "Theorems: prettify_squash / prettify_squash_str (for every indent, max_len, inline_ops: removing blanks and newlines from the output gives the concatenation of the chunks, = the tree's text when layout is blank), prettify_isSome_iff (fails exactly on operations without operands in certain positions), determinism (function). The parse-back clause is checked on the implementation (re-parse equality, determinism, non-mutation); KF10 recognised.",
-            NOTE_COMMON + 'Parse-back needs lexer adjacency lemmas that are not proved: partial.', "5 C18"),
+    "C18": ("Lean 4 proof (structure theorem: the output is a re-layout of the printed tree in which separators are kept or "
+            "replaced by non-empty blank strings; glue conditions are monotone in the separators; LX + parser completeness) + "
+            "correspondence + re-parse oracle + printer histories",
+            "Theorems: prettify_spelling (for every indent, max_len, inline_ops: out = spell ps tr with the token keys of the "
+            "tree and blank separators), gluesOK_loosen, prettify_parse_back_partial / prettify_parsed_total (for every "
+            "parsed query without blank before ':' (KF1, needed only for fields inside chunks printed with str: 'NOT T12 "
+            ":30') and without newline inside a lexeme (KF10), under every setting the printer succeeds, its output is "
+            "accepted by the parser and parses to an eqv tree), prettify_parse_back_of_printable (any printable tree), "
+            "prettify_isSome_iff (fails exactly on operations without operands); determinism = functionality of the model. "
+            "KF10 and KF1/KF8 refuted on witnesses by decide +kernel; four settings cross-checked byte for byte. On the "
+            "implementation: re-parse equality, determinism, non-mutation, and long-lived printers against fresh ones on "
+            "near-identical trees.",
+            NOTE_COMMON + "Prettifier is hand-modelled (Model/Pretty.lean; prettifyK is a structurally recursive copy proved equal, "
+            "used for kernel evaluation).", "5 C18"),
     "C19": ('Lean 4 proof (walk enumerates every field once; not-analysed iff; registered nested prefixes; end-to-end clause for the dotted spelling) + correspondence + per-leaf oracle on random mappings with analyzer call histories',
             'Theorems: walk_enumerates, notAnalyzed_iff, nestedPrefixes_iff (a nested node is registered iff it has a child that is not itself a registered container: KF5/KF11 made precise), build_schema_field / build_nested_path / build_no_nested_path (the dotted query of a mapped field gives a clause on the full path, term-level iff not analysed, nested on the innermost REGISTERED nested prefix). Correspondence and oracle over random mappings, both spellings, equivalent spec spellings.',
             NOTE_COMMON + 'Group spelling, phrases/ranges and document-type level are covered by the correspondence only.', "5 C19"),
